@@ -507,7 +507,7 @@ def run_bounded(ctx):
     if ctx.thorough:
         lit_types = [(t, 3) for t in _type_multisets(1, ("num", "cat2", "cat3")) + _type_multisets(2) + _type_multisets(3)]
     else:
-        lit_types = [(("cat2",), 1), (("cat2", "cat3"), 3), (("num", "cat3"), 3), (("num", "cat2", "cat3"), 3), (("cat2", "cat2", "cat3"), 3)]
+        lit_types = [(("cat2",), 1), (("cat2", "cat3"), 3), (("num", "cat3"), 3), (("num", "cat2", "cat3"), 3)]
     lits = ("2", "3", "0.5")
     n_sets = 0
     for types, max_terms in lit_types:
@@ -525,7 +525,7 @@ def run_bounded(ctx):
              "(0.5 is dyadic, so the rational arithmetic stays exact)",
         exhaustive=True,
         bound=("all 1-, 2- and 3-factor type multisets" if ctx.thorough else
-               "type tuples (2 levels), (2,3 levels), (numeric, 3 levels), (numeric, 2, 3 levels), (2,2,3 levels)")
+               "type tuples (2 levels), (2,3 levels), (numeric, 3 levels), (numeric, 2, 3 levels)")
               + ", all term sets <=3 terms",
     ) as b:
         _scope(ctx, b, units, True, "literal-multiplier")
